@@ -388,4 +388,148 @@ Section Conf.
     - apply seg_list. intros x [<-|[]]. split; [reflexivity|].
       eapply pk with (a := (a_extra, rExtra)); [left; reflexivity | reflexivity |]. apply conf_ds_extra. assumption.
   Qed.
+
+  (* ---------------------------------------------------------------- sources, primitives, geometry *)
+  Lemma conf_text_attrs : forall r x uses st,
+    rule_of r emit_rules = Some (GRule uses (GText st)) -> attrs_ok_l lex uses x = true -> no_kids x = true ->
+    val_ok lex st (vals_of_text (xtext x)) = true -> C r x = true.
+  Proof.
+    intros r x uses st Hr Ha Hn Hv. rewrite confh_unfold. change (gg_rules G) with emit_rules. rewrite Hr.
+    cbn [gr_body gr_attrs]. now rewrite Ha, Hn, Hv.
+  Qed.
+
+  Lemma conf_param : forall ty c, aval_is lex (SLex lx_NMTOKEN) (AStr ty) = true -> is_ncname lex (AStr c) = true ->
+    C rParam (El 0%N tns a_param [(a_type, AStr ty); (a_name, AStr c)] None []) = true.
+  Proof. intros. eapply conf_text_attrs; [reflexivity | attrs | reflexivity | reflexivity]. Qed.
+
+  Lemma conf_source : forall s, wf_srcm lex s = true ->
+    picked G C [(a_source, rSourceF); (a_source, rSourceN); (a_source, rSourceI)] (emit_source s) = true.
+  Proof.
+    intros [sid aid vals comps arrtag ptype] H. unfold wf_srcm in H. cbn in H.
+    apply andb_true_iff in H as [H Hk]. splitb H.
+    assert (Htc : picked G C [(a_technique_common, rSourceTC)]
+              (El 0%N tns a_technique_common [] None
+                 [El 0%N tns a_accessor [(a_count, AInt (zlen vals / zlen comps)); (a_source, ARef true aid); (a_stride, AInt (zlen comps))] None
+                    (map (fun c => El 0%N tns a_param [(a_type, AStr ptype); (a_name, AStr c)] None []) comps)]) = true).
+    { eapply pk with (a := (a_technique_common, rSourceTC)); [left; reflexivity | reflexivity |].
+      eapply conf_ones; [reflexivity | reflexivity | reflexivity |]. cbn [xkids ones_ok]. split; [|exact I].
+      eapply pk with (a := (a_accessor, rAccessor)); [left; reflexivity | reflexivity |].
+      eapply conf_segs with (segs := [([a_param], map (fun c => El 0%N tns a_param [(a_type, AStr ptype); (a_name, AStr c)] None []) comps)]); shape.
+      - attrs.
+      - segs. apply seg_map. intros c Hc. split; [reflexivity|].
+        eapply pk with (a := (a_param, rParam)); [left; reflexivity | reflexivity |].
+        apply conf_param; auto.
+        match goal with Hf : forallb _ comps = true |- _ => rewrite forallb_forall in Hf; auto end. }
+    unfold emit_source. cbn [sm_id sm_arr_id sm_vals sm_comps sm_arrtag sm_ptype].
+    apply orb_true_iff in Hk as [Hk|Hk]; [apply orb_true_iff in Hk as [Hk|Hk]|];
+      apply andb_true_iff in Hk as [Ht Hv]; apply N.eqb_eq in Ht; subst arrtag.
+    - eapply pk with (a := (a_source, rSourceF)); [simpl; tauto | reflexivity |].
+      eapply conf_ones; [reflexivity | attrs | reflexivity |]. cbn [xkids ones_ok]. split; [|split; [exact Htc | exact I]].
+      eapply pk with (a := (a_float_array, rFloatArray)); [left; reflexivity | reflexivity |].
+      eapply conf_text_attrs; [reflexivity | attrs | reflexivity | exact Hv].
+    - eapply pk with (a := (a_source, rSourceN)); [simpl; tauto | reflexivity |].
+      eapply conf_ones; [reflexivity | attrs | reflexivity |]. cbn [xkids ones_ok]. split; [|split; [exact Htc | exact I]].
+      eapply pk with (a := (a_Name_array, rNameArray)); [left; reflexivity | reflexivity |].
+      eapply conf_text_attrs; [reflexivity | attrs | reflexivity | exact Hv].
+    - eapply pk with (a := (a_source, rSourceI)); [simpl; tauto | reflexivity |].
+      eapply conf_ones; [reflexivity | attrs | reflexivity |]. cbn [xkids ones_ok]. split; [|split; [exact Htc | exact I]].
+      eapply pk with (a := (a_IDREF_array, rIdrefArray)); [left; reflexivity | reflexivity |].
+      eapply conf_text_attrs; [reflexivity | attrs | reflexivity | exact Hv].
+  Qed.
+
+  Lemma conf_input : forall i, wf_inpm lex i = true ->
+    has_tag [a_input] (emit_input i) = true /\ picked G C [(a_input, rInputP)] (emit_input i) = true.
+  Proof.
+    intros [off sem src st] H. unfold wf_inpm in H. cbn in H. splitb H. split; [reflexivity|].
+    eapply pk with (a := (a_input, rInputP)); [left; reflexivity | reflexivity |].
+    unfold emit_input. cbn [im_offset im_sem im_src im_set].
+    destruct st as [sv|]; cbn [app oall] in *; (eapply conf_ones; [reflexivity | attrs | reflexivity | exact I]).
+  Qed.
+
+  Lemma uints_seg : forall t l, tval lex (SList tUIntT 0 None) l = true ->
+    has_tag [t] (El 0%N tns t [] (Some l) []) = true /\ picked G C [(t, rUInts)] (El 0%N tns t [] (Some l) []) = true.
+  Proof.
+    intros t l H. split; [unfold has_tag; cbn; now rewrite N.eqb_refl|].
+    eapply pk with (a := (t, rUInts)); [left; reflexivity | unfold tag_is; cbn; now rewrite N.eqb_refl |].
+    eapply conf_text_attrs; [reflexivity | reflexivity | reflexivity | exact H].
+  Qed.
+
+  Definition prim_alts := [(a_triangles, rPrimP); (a_lines, rLines); (a_polylist, rPolylist); (a_polygons, rPolygons)].
+  Definition prim_tags := [a_triangles; a_lines; a_polylist; a_polygons].
+
+  Lemma conf_prim : forall p, wf_primm lex p = true ->
+    has_tag prim_tags (emit_prim p) = true /\ picked G C prim_alts (emit_prim p) = true.
+  Proof.
+    intros [kind ins idx mat] H. unfold wf_primm in H. cbn [pm_inputs pm_material pm_index pm_kind] in H.
+    apply andb_true_iff in H as [H Hvc]. splitb H.
+    assert (Hins : seg_ok G C (IStar [(a_input, rInputP)]) ([a_input], map emit_input ins) = true).
+    { apply seg_map. intros i Hi. apply conf_input.
+      match goal with Hf : forallb (wf_inpm lex) ins = true |- _ => rewrite forallb_forall in Hf; auto end. }
+    assert (Hmat : forall c, is_uint lex (AInt c) = true ->
+              attrs_ok_l lex [req a_count tUInt; opt a_material tNCName]
+                (El 0%N tns a_triangles ((a_count, AInt c) :: mat_attr (PrimM kind ins idx mat)) None []) = true).
+    { intros c Hc. unfold mat_attr. cbn [pm_material]. destruct mat as [mv|]; cbn [oall] in *; attrs. }
+    unfold emit_prim, prim_count in *. cbn [pm_kind pm_inputs pm_index pm_material] in *.
+    destruct kind as [| |vcs|].
+    - split; [reflexivity|]. eapply pk with (a := (a_triangles, rPrimP)); [simpl; tauto | reflexivity |].
+      eapply conf_segs with (segs := [([a_input], map emit_input ins); ([a_p], [p_el (Bookkeeping.flat (PrimM KTriangles ins idx mat))])]); shape.
+      + apply Hmat; assumption.
+      + segs; [exact Hins|]. apply seg_opt_one; apply uints_seg; assumption.
+    - split; [reflexivity|]. eapply pk with (a := (a_lines, rLines)); [simpl; tauto | reflexivity |].
+      eapply conf_segs with (segs := [([a_input], map emit_input ins); ([a_p], [p_el (Bookkeeping.flat (PrimM KLines ins idx mat))])]); shape.
+      + apply Hmat; assumption.
+      + segs; [exact Hins|]. apply seg_opt_one; apply uints_seg; assumption.
+    - split; [reflexivity|]. eapply pk with (a := (a_polylist, rPolylist)); [simpl; tauto | reflexivity |].
+      eapply conf_segs with (segs := [([a_input], map emit_input ins);
+                                      ([a_vcount], [El 0%N tns a_vcount [] (Some (map TInt vcs)) []]);
+                                      ([a_p], [p_el (Bookkeeping.flat (PrimM (KPolylist vcs) ins idx mat))])]); shape.
+      + apply Hmat; assumption.
+      + segs; [exact Hins | |]; apply seg_opt_one; apply uints_seg; assumption.
+    - split; [reflexivity|]. eapply pk with (a := (a_polygons, rPolygons)); [simpl; tauto | reflexivity |].
+      eapply conf_segs with (segs := [([a_input], map emit_input ins); ([a_p], map p_el idx)]); shape.
+      + apply Hmat; assumption.
+      + segs; [exact Hins|]. apply seg_map. intros l Hl. apply uints_seg.
+        match goal with Hf : forallb _ idx = true |- _ => rewrite forallb_forall in Hf; auto end.
+  Qed.
+
+  Lemma conf_vertices : forall vid vref, is_ncname lex (AStr vid) = true -> aval_is lex SFragment (ARef true vref) = true ->
+    wf_lex lex = true -> picked G C [(a_vertices, rVertices)] (emit_vertices vid vref) = true.
+  Proof.
+    intros vid vref H1 H2 HL. unfold wf_lex in HL. splitb HL.
+    eapply pk with (a := (a_vertices, rVertices)); [left; reflexivity | reflexivity |].
+    eapply conf_segs with (segs := [([a_input], [el a_input [(a_semantic, AStr a_POSITION); (a_source, ARef true vref)] None []]);
+                                    ([a_input], [])]); shape.
+    - attrs.
+    - segs. apply seg_one; [reflexivity|].
+      eapply pk with (a := (a_input, rInputV)); [left; reflexivity | reflexivity |].
+      eapply conf_ones; [reflexivity | attrs | reflexivity | exact I].
+  Qed.
+
+  Lemma conf_geometry : forall g, wf_lex lex = true -> wf_geometry lex g = true -> C rGeometry (emit_geometry g) = true.
+  Proof.
+    intros [id name s0 srcs vid vref prims ds] HL H. unfold wf_geometry in H.
+    cbn [g_id g_name g_src0 g_sources g_vid g_vref g_prims g_ds] in H. splitb H.
+    pose proof HL as HL'. unfold wf_lex in HL'. splitb HL'.
+    unfold emit_geometry. cbn [g_id g_name g_src0 g_sources g_vid g_vref g_prims g_ds].
+    eapply conf_segs with (segs := [([a_mesh], [el a_mesh [] None
+            ([emit_source s0] ++ map emit_source srcs ++ [emit_vertices vid vref] ++
+             map (fun p => emit_prim (redirect_prim vid vref p)) prims)]);
+            ([a_extra], if ds then [emit_ds_extra a_GOOGLEEARTH [TInt 1%Z]] else [])]); shape.
+    - destruct name as [nv|]; cbn [opt_at oall] in *; attrs.
+    - segs.
+      + apply seg_one; [reflexivity|].
+        eapply pk with (a := (a_mesh, rMesh)); [left; reflexivity | reflexivity |].
+        eapply conf_segs with (segs := [([a_source], [emit_source s0]); ([a_source], map emit_source srcs);
+                                        ([a_vertices], [emit_vertices vid vref]);
+                                        (prim_tags, map (fun p => emit_prim (redirect_prim vid vref p)) prims)]); shape.
+        segs.
+        * apply seg_one; [reflexivity | apply conf_source; assumption].
+        * apply seg_map. intros s Hs. split; [reflexivity|]. apply conf_source.
+          match goal with Hf : forallb (wf_srcm lex) srcs = true |- _ => rewrite forallb_forall in Hf; auto end.
+        * apply seg_one; [reflexivity | apply conf_vertices; assumption].
+        * apply seg_map. intros p Hp. apply conf_prim.
+          match goal with Hf : forallb _ prims = true |- _ => rewrite forallb_forall in Hf; exact (Hf p Hp) end.
+      + apply seg_list. intros x Hx. destruct ds; [|contradiction]. destruct Hx as [<-|[]]. split; [reflexivity|].
+        eapply pk with (a := (a_extra, rExtra)); [left; reflexivity | reflexivity |]. apply conf_ds_extra. assumption.
+  Qed.
 End Conf.
